@@ -111,14 +111,15 @@ class CTLWorld(object):
     self.peers = []
     self.handler_errors = 0
 
-  def boot(self, real_deferred_sender=False):
+  def boot(self, real_deferred_sender=False, sched=None, eng=None):
     import pox.core
     from pox.core import core
     import pox.openflow as OF
     import pox.openflow.of_01 as O1
     import pox.openflow.libopenflow_01 as of
     sim = self.sim
-    self.sched = S.new_scheduler(sim)
+    self.eng = eng
+    self.sched = sched if sched is not None else S.new_scheduler(sim)
     core.running = True
     core.starting_up = False
     for name in ("openflow", "OpenFlowConnectionArbiter", "of_01"):
@@ -141,13 +142,31 @@ class CTLWorld(object):
         def kill(_s, con):
           pass
       O1.deferredSender = _NoDeferred()
+    else:
+      # the real DeferredSender, its run() loop on an engine-controlled
+      # thread; its lock, waker and select are simulator objects
+      import threading as _T
+
+      class _NS(object):
+        Thread = _T.Thread
+
+        @staticmethod
+        def RLock():
+          return eng.RLock()
+
+        def __getattr__(_s, n):
+          return getattr(_T, n)
+      O1.threading = _NS()
+      O1.DeferredSender.start = lambda ds: eng.spawn(ds.run, "deferred")
+      O1.deferredSender = O1.DeferredSender()
     self._wrap_connection_class()
     self._listen_nexus()
     self.task = O1.OpenFlow_01_Task(port=6633, address="0.0.0.0")
     self.task.start()
-    sim.settle()
-    if 6633 not in sim.listeners:
-      raise S.SimAbort("harness", "controller did not listen")
+    if eng is None:
+      sim.settle()
+      if 6633 not in sim.listeners:
+        raise S.SimAbort("harness", "controller did not listen")
 
   # -- observation -------------------------------------------------------
   def _wrap_connection_class(self):
